@@ -522,6 +522,45 @@ func (wd *world) next(tp *engine.Tape) mutation {
 	}}
 }
 
+// endpointChange returns a mutation that only changes the endpoints of an existing ServiceEntry declaring host
+// (nil if there is none): the change a frozen EDS generator for that host would make stale.
+func (wd *world) endpointChange(tp *engine.Tape, hostname string) *mutation {
+	for _, k := range wd.existingKeys() {
+		c := wd.exists[k]
+		if c.GroupVersionKind.Kind != "ServiceEntry" {
+			continue
+		}
+		se := c.Spec.(*networking.ServiceEntry)
+		if !contains(se.Hosts, hostname) || hostname[0] == '*' {
+			continue
+		}
+		wd.seq++
+		nc := c.DeepCopy()
+		nse := nc.Spec.(*networking.ServiceEntry)
+		nse.Resolution = networking.ServiceEntry_STATIC
+		nse.WorkloadSelector = nil
+		nse.Endpoints = nil
+		n := 1 + tp.Choose(2, "neps")
+		for i := 0; i < n; i++ {
+			nse.Endpoints = append(nse.Endpoints, &networking.WorkloadEntry{
+				Address:  fmt.Sprintf("10.1.9.%d", (wd.seq*2+i)%250+1),
+				Labels:   map[string]string{"version": []string{"v1", "v2"}[tp.Choose(2, "epver")]},
+				Locality: []string{"region1/zone1", "region2/zone2"}[tp.Choose(2, "loc")],
+			})
+		}
+		nc.ResourceVersion = ""
+		wd.exists[k] = nc
+		g, name, ns := nc.GroupVersionKind, nc.Name, nc.Namespace
+		_ = g
+		_, _ = name, ns
+		return &mutation{kind: "ServiceEntry", desc: fmt.Sprintf("update endpoints of %s -> %v", k, nse.Endpoints), apply: func(inst *wisInstance) error {
+			_, err := inst.fds.Store().Update(nc.DeepCopy())
+			return err
+		}}
+	}
+	return nil
+}
+
 func compactSpec(s config.Spec) string {
 	str := fmt.Sprint(s)
 	if len(str) > 260 {
